@@ -204,6 +204,12 @@ func zzDisposeIteration() {
 		_, tracked := set[s.ip.ip]
 		zz.Assert(zz.Implies(zz.And(l.eni != nil, !tracked), !cloud[s.ip.ip]), "an address is forgotten by the pool only after the cloud confirmed its removal")
 	}
+	if l.eni == nil {
+		zz.Reach("interface deleted")
+		// the slot of a deleted interface is reused for the next interface: nothing of the old one may stay behind
+		zz.Assert(len(l.ipv4) == 0 && len(l.ipv6) == 0, "after its interface was deleted the slot tracks no address of either family (a stale entry would be handed to a pod although the cloud no longer assigns it)")
+		zz.Assert(l.status == statusInit, "the slot of a deleted interface is back in its initial state")
+	}
 	_ = strconv.Itoa
 	_ = daemon.ModeENIMultiIP
 }
